@@ -25,6 +25,9 @@ CHECKS["C12"] = ("verdict monitor by construction over generated multi-module pr
 CHECKS["C13"] = ("crash/hang/contract monitor over hostile inputs: in-process worker pool (panic caught with stack, worker death attributed to the logged job) for type-check and wasm targets, real CLI under RLIMIT_CPU for native target and for every suspicious input; predicates over the outcome record (exit status vs diagnostics vs artifact vs locations)",
  "Held on N hostile inputs (random bytes, UTF-8 noise, truncations, token mutations of the corpus, token soup, deep nesting, encoding oddities, malformed multi-file projects): no Go panic/fatal error/signal, CPU budget respected, exit status in {0,1} and equal to 'an error diagnostic was printed', artifact present iff success, every printed location inside an input file.",
  "CPU budget (20 s) and input size bound (16 KiB, nesting <= 400) are the rig's choices; a wall-clock watchdog firing is inconclusive", "DESIGN.md §3 C13")
+CHECKS["C14"] = ("relational monitor across repeated compilations of generated multi-module projects under perturbed schedules (verif hook: Gosched/sleep at parse points + event log proving distinct parse orders), varied GOMAXPROCS, the Go race detector, and the plain binary; byte comparison of exit status, stderr, gen/*.ssa and .wasm",
+ "Held on N projects x K schedules: every run of the same project directory (hook-perturbed ferret-verif under GOMAXPROCS 1/2/4/16, ferret-race, plain ferret; native -keep-gen and wasm) produced the same exit status, byte-identical diagnostics, QBE IL per module and .wasm; the event log showed >=2 distinct parse orders per counted project; the race detector reported nothing.",
+ "schedules are sampled (hook points + GOMAXPROCS), not enumerated; map-order nondeterminism is only seen with probability per run; cyclic projects are compared on exit status/presence of the error only (open finding kf-C14-cycle)", "DESIGN.md §3 C14")
 CHECKS["C16"] = ("reference-model monitor: math/big oracle over the exported C API of bigint.c (value and _ptr forms) behind a clang ASan+UBSan driver, limb-boundary-weighted operand workload",
  "Held on N calls: every exported ferret_{i,u}{128,256}_* operation (add, sub, mul, div, mod, comparisons, and/or/xor/not, shl/shr, pow, 64-bit conversions, decimal/hex/octal/binary text conversion) returned the math/big result reduced mod 2^N on every generated operand pair, in both calling forms, without a sanitizer report. Exploration over a 2^256 space: strength comes from boundary weighting (limb edges, sign boundaries, borrow/carry chains), not enumeration.",
  "trusts math/big and the hex transport of the driver; division by zero, negative shifts/exponents are out of the property's domain", "DESIGN.md §3 C16")
